@@ -336,6 +336,11 @@ theorem invA_step (c0 : Cfg) (s s' : PSys) (e : Event) (hV : InvV c0 (vsys s)) (
       intro _ m hm ha
       simp only [List.mem_filter]; exact ⟨hm, ha⟩
     · cases h
+  | read r =>
+    simp only [applyEvent, ok] at h
+    split at h
+    · cases h; exact ⟨hI.sub, hI.o1, hI.o2, hI.o3, hI.o4, hI.ia, hI.dn, hI.posq, hI.rqv⟩
+    · cases h
   | win i cfg q =>
     simp only [applyEvent, ok] at h
     split at h
